@@ -312,7 +312,7 @@ def network_nodes(rec):
 
 
 # --------------------------------------------------------------------------- descriptions (loader inputs)
-def notation(rng, z, allow_deg=False):
+def notation(rng, z, allow_deg=False, neg_p=0.15):
     """a complex number written in one of the documented notations"""
     import cmath
     import math
@@ -325,8 +325,9 @@ def notation(rng, z, allow_deg=False):
     except (OverflowError, ValueError):
         return {"real": z.real, "imag": z.imag}
     ph += rng.choice([0, 0, 2 * math.pi, -2 * math.pi, 4 * math.pi])
-    if rng.random() < 0.15:
-        a, ph = -a, ph + math.pi
+    if rng.random() < neg_p:
+        a, ph = -a, ph + math.pi          # negative magnitude: the generic conversion must reject it; the network loader's
+                                          # reading of it is not judged (ops_ld.m_complex), hence the lower rate there
     return {"abs": a, "phase": ph}
 
 
@@ -345,6 +346,8 @@ def gen_net_description(rng, degenerate=False, wide=False):
 
 
 def _gen_net_description(rng, degenerate, cx):
+    _notation = notation
+    notation_ = lambda r, z: _notation(r, z, neg_p=0.04)
     kinds = ["resistor", "conductor", "impedance", "admittance", "linear_current_source", "current_source",
              "real_current_source", "linear_voltage_source", "voltage_source", "real_voltage_source",
              "short_circuit", "open_circuit"]
@@ -362,21 +365,21 @@ def _gen_net_description(rng, degenerate, cx):
         elif k == "conductor":
             e["G"] = rng.choice([1 / rng.choice(R_VALUES), 0, -0.5, 3])
         elif k == "impedance":
-            e["Z"] = notation(rng, cx(rng) * 10)
+            e["Z"] = notation_(rng, cx(rng) * 10)
         elif k == "admittance":
-            e["Y"] = notation(rng, cx(rng) * 0.1)
+            e["Y"] = notation_(rng, cx(rng) * 0.1)
         elif k == "linear_current_source":
-            e["I"] = notation(rng, cx(rng)); e["Y"] = notation(rng, cx(rng) * 0.1)
+            e["I"] = notation_(rng, cx(rng)); e["Y"] = notation_(rng, cx(rng) * 0.1)
         elif k == "current_source":
-            e["I"] = notation(rng, cx(rng))
+            e["I"] = notation_(rng, cx(rng))
             if rng.random() < 0.3:
                 e["Y"] = rng.choice([0, 0.5, 1e-3, 2])                  # optional raw admittance
         elif k == "real_current_source":
             e["I"] = rng.choice(I_VALUES + [0, -0.0]); e["Y"] = rng.choice([1 / rng.choice(R_VALUES), 0, 1])
         elif k == "linear_voltage_source":
-            e["V"] = notation(rng, cx(rng) * 5); e["Z"] = notation(rng, cx(rng) * 10)
+            e["V"] = notation_(rng, cx(rng) * 5); e["Z"] = notation_(rng, cx(rng) * 10)
         elif k == "voltage_source":
-            e["V"] = notation(rng, cx(rng) * 5)
+            e["V"] = notation_(rng, cx(rng) * 5)
             if rng.random() < 0.3:
                 e["Z"] = rng.choice([0, 10, 0.5, 1e3])                  # optional raw impedance
         elif k == "real_voltage_source":
